@@ -87,6 +87,7 @@ type BlockUtils struct {
 	Me        string
 	counter   int
 	Gate      Gate
+	gateHash  string // hash of the proposal whose validation is entering the gate (read by the gate through GateHash)
 	Validates []ValidateCall
 	Proposals []ProposalCall
 	// AcceptAll makes this node's validator approve everything, even a missing block (a careless consumer: C12 only).
@@ -96,6 +97,9 @@ type BlockUtils struct {
 	// Proposed holds every block this node's RequestNewBlockProposal returned.
 	Proposed map[string]*Block
 }
+
+// GateHash: the hash of the proposal whose ValidateBlockProposal call is entering the gate right now.
+func (u *BlockUtils) GateHash() string { u.mu.Lock(); defer u.mu.Unlock(); return u.gateHash }
 
 func NewBlockUtils(me string) *BlockUtils {
 	return &BlockUtils{Me: me, Proposed: map[string]*Block{}}
@@ -139,6 +143,9 @@ func ValidProposal(h primitives.BlockHeight, block interfaces.Block, hash primit
 func (u *BlockUtils) ValidateBlockProposal(ctx context.Context, h primitives.BlockHeight, memberId primitives.MemberId, block interfaces.Block, hash primitives.BlockHash, prevBlock interfaces.Block) error {
 	ctxErr := ctx.Err() != nil
 	if u.Gate != nil {
+		u.mu.Lock()
+		u.gateHash = string(hash)
+		u.mu.Unlock()
 		u.Gate("validate", ctx, h)
 	}
 	err := ValidProposal(h, block, hash, prevBlock)
